@@ -8,6 +8,89 @@ use crate::dsl::*;
 
 pub struct C14;
 
+/// Many redo-always targets shared by several dependents, built in parallel:
+/// every run must execute each of them exactly once, whoever asks first, and
+/// none of the many concurrent `redo-always` calls may fail.
+fn many_always_case(rng: &mut Rng, seed: u64) -> Case {
+    let files = vec![
+        ("s0".to_string(), source_content("s0", 0)),
+        ("s1".to_string(), source_content("s1", 0)),
+    ];
+    let na = rng.range(4, 10) as usize;
+    let mut rules: Vec<(String, Rule)> = Vec::new();
+    let mut always: Vec<String> = Vec::new();
+    for i in 0..na {
+        let mut st = vec![Stmt::Always];
+        if rng.chance(1, 2) {
+            st.push(Stmt::IfChange(vec!["s1".into()]));
+        }
+        if rng.chance(1, 3) {
+            st.push(Stmt::Work(rng.range(1, 20)));
+        }
+        if rng.chance(1, 4) {
+            st.push(Stmt::Noise);
+            st.push(Stmt::Stamp { only: vec![] });
+        }
+        rules.push((format!("a{}.do", i), Rule { version: 0, stmts: st }));
+        always.push(format!("a{}", i));
+    }
+    let nd = rng.range(2, 5) as usize;
+    let mut mids = Vec::new();
+    for j in 0..nd {
+        let mut deps = always.clone();
+        rng.shuffle(&mut deps);
+        deps.truncate(rng.range(2, na as u64) as usize);
+        let mut st = vec![Stmt::IfChange(deps), Stmt::IfChange(vec!["s0".into()])];
+        if rng.chance(1, 3) {
+            st.push(Stmt::Work(rng.range(1, 20)));
+        }
+        rules.push((format!("m{}.do", j), Rule { version: 0, stmts: st }));
+        mids.push(format!("m{}", j));
+    }
+    let mut top = mids.clone();
+    top.push(rng.pick(&always).clone());
+    rules.push((
+        "top.do".into(),
+        Rule {
+            version: 0,
+            stmts: vec![Stmt::IfChange(top)],
+        },
+    ));
+    let mut sc = Scenario {
+        family: "c14-many-always".into(),
+        files,
+        rules,
+        ..Default::default()
+    };
+    let mut sver = 0;
+    for k in 0..rng.range(2, 3) {
+        if k > 0 && rng.chance(1, 2) {
+            sver += 1;
+            sc.history.push(Step::Write {
+                path: "s0".into(),
+                bytes: source_content("s0", sver),
+            });
+        }
+        let prog = if rng.chance(1, 2) { "redo" } else { "redo-ifchange" };
+        let mut c = redo_cmd(rng, prog, &["top".to_string()], 1, 200);
+        c.argv.retain(|a| !a.starts_with("-j"));
+        if prog == "redo" {
+            c.argv.insert(1, format!("-j{}", rng.range(3, 8)));
+        } else {
+            c.make_tokens = Some(rng.range(2, 6) as u32);
+        }
+        sc.history.push(Step::Cmds(vec![c]));
+    }
+    Case {
+        property: "C14".into(),
+        seed,
+        scenario: sc,
+        knobs: Knobs::draw(rng),
+        opts: PlayOpts::default(),
+        meta: BTreeMap::new(),
+    }
+}
+
 impl Property for C14 {
     fn id(&self) -> &'static str {
         "C14"
@@ -29,7 +112,10 @@ impl Property for C14 {
          and the command, from-scratch freshness after successful commands; non-trivial = >=1 preemption \
          and >=1 script; distinct = (scenario, preemption signature)"
     }
-    fn generate(&self, rng: &mut Rng, seed: u64, _tier: Tier, _index: u64) -> Case {
+    fn generate(&self, rng: &mut Rng, seed: u64, _tier: Tier, index: u64) -> Case {
+        if index % 4 == 3 {
+            return many_always_case(rng, seed);
+        }
         let files = vec![
             ("s0".to_string(), source_content("s0", 0)),
             ("s1".to_string(), source_content("s1", 0)),
@@ -169,17 +255,36 @@ impl Property for C14 {
             let cmd = &g.cmds[0];
             let world = &rec.world_after[g.step_idx];
             let counts = exec_counts(g);
-            if let Some(n) = counts.get("al") {
-                // `redo al` style forcing is not generated; one execution per invocation
-                if *n != 1 {
+            for (t, n) in &counts {
+                // `redo <always-target>` style forcing is not generated; one
+                // execution per invocation
+                let is_always = world
+                    .rule_for(t)
+                    .map_or(false, |(_, r)| r.stmts.iter().any(|s| matches!(s, Stmt::Always)));
+                if is_always && *n != 1 {
                     v.push(Violation {
                         kind: "always-not-once".into(),
                         detail: format!(
-                            "history step {} {:?}: the always-target was executed {} times in one invocation",
-                            g.step_idx, cmd.argv, n
+                            "history step {} {:?}: the always-target {} was executed {} times in one invocation",
+                            g.step_idx, cmd.argv, t, n
                         ),
                     });
                 }
+            }
+            // every script of these scenarios succeeds, except the bare
+            // redo-ifcreate on an existing path
+            let bare_fails = cmd.targets().iter().any(|t| t == "bare") && world.exists("w1");
+            if g.results[0].status != Some(0) && !bare_fails {
+                v.push(Violation {
+                    kind: "spurious-failure".into(),
+                    detail: format!(
+                        "history step {} {:?} exited {:?} although every script succeeds; stderr: {}",
+                        g.step_idx,
+                        cmd.argv,
+                        g.results[0].status,
+                        c09::tail(&g.results[0].stderr, 400)
+                    ),
+                });
             }
             // bare ifcreate on an existing path is an error
             if counts.contains_key("bare") && world.exists("w1") {
